@@ -432,7 +432,15 @@ uint32_t IPv6::calculate_headers_size() const {
 }
 
 void IPv6::write_header(const ext_header& header, OutputMemoryStream& stream) {
-    const uint8_t length = header.length_field() / 8;
+    uint8_t length = static_cast<uint8_t>(header.length_field() / 8);
+    // Unless the length field has been spoofed, it's the size of the whole padded
+    // header in 8 octet units, not counting the first 8 octets
+    if (header.length_field() == header.data_size()) {
+        const uint32_t total_size = static_cast<uint32_t>(
+            header.data_size() + sizeof(uint8_t) * 2 + get_padding_size(header)
+        );
+        length = static_cast<uint8_t>(total_size / 8 - 1);
+    }
     stream.write(header.option());
     stream.write(length);
     stream.write(header.data_ptr(), header.data_size());
